@@ -171,26 +171,42 @@ def run(ck, prog, ctx):
     # build_with_defaults: both setters, both results branched on
     bd = prog.one(r"^ontology::builder::Builder::<ontology::builder::FullyAnnotated>::build_with_defaults$")
     if ck.anchor("DOM", "Builder<FullyAnnotated>::build_with_defaults", bd):
-        for nm in ("set_default_categories", "set_default_modifier"):
-            calls = [(bi, t) for bi, t in bd.calls() if t.callee.res == ONT + nm]
+        def propagates_(hb, target):
+            """does `hb` call `target` and hand its error on (`?`, an explicit Err, or the call's Result returned as it is)?  -> (calls, ok)"""
+            calls = [(bi, t) for bi, t in hb.calls() if t.callee.res == target]
             ok = False
             # combinator form (`a().and_then(|()| b()).map(|()| ont)`): the setter's error is the error of the returned Result
-            fam_calls = [(fb, bi) for fb in prog.family(bd) for bi, t in fb.calls() if t.callee.res == ONT + nm]
-            ret_err = pvn.of_return(bd, (("errval",),))
+            fam_calls = [(fb, bi) for fb in prog.family(hb) for bi, t in fb.calls() if t.callee.res == target]
+            ret_err = pvn.of_return(hb, (("errval",),)) | {a for a in pvn.of_return(hb) if a[0] == "call"}
             if fam_calls and all(any(a[0] == "call" and a[3] == fb.id and a[4] == bi for a in ret_err) for fb, bi in fam_calls):
                 ok = True
             calls = calls or [(bi, fb.blocks[bi].term) for fb, bi in fam_calls]
             for bi, t in ([] if ok else calls):
-                if not any(t is t2 for _, t2 in bd.calls()):
+                if not any(t is t2 for _, t2 in hb.calls()):
                     continue
-                for sbi in sorted(bd.reach):
-                    x = bd.blocks[sbi].term
-                    if x.k == "switch" and any(a[0] == "call" and a[4] == bi and a[3] == bd.id for a in pvn.of_operand(bd, x.discr)):
+                for sbi in sorted(hb.reach):
+                    x = hb.blocks[sbi].term
+                    if x.k == "switch" and any(a[0] == "call" and a[4] == bi and a[3] == hb.id for a in pvn.of_operand(hb, x.discr)):
                         # the Ok(ontology) construction must not be reachable from the error edge
                         for tg in x.successors():
-                            region = bd.region((sbi, tg))
-                            if any(bd.blocks[r].term.k == "call" and bd.blocks[r].term.callee.method == "from_residual" for r in region) or any(st.k == "assign" and st.rv["k"] == "agg" and st.rv.get("variant") == "Err" for r in region for st in bd.blocks[r].stmts):
+                            region = hb.region((sbi, tg))
+                            if any(hb.blocks[r].term.k == "call" and hb.blocks[r].term.callee.method == "from_residual" for r in region) or any(st.k == "assign" and st.rv["k"] == "agg" and st.rv.get("variant") == "Err" for r in region for st in hb.blocks[r].stmts):
                                 ok = True
+            return calls, ok
+
+        for nm in ("set_default_categories", "set_default_modifier"):
+            calls, ok = propagates_(bd, ONT + nm)
+            if not calls:
+                # one private, loop-free step in between (`Self::apply_defaults(&mut ont)?`): the same question at both hops
+                for hid in sorted({t.callee.res for _, t in bd.calls() if t.callee.res in prog.bodies}):
+                    hb = prog.bodies[hid]
+                    if hb.exported or hb.reachable or hb.kind not in ("Fn", "AssocFn") or hb.natural_loops():
+                        continue
+                    c2, ok2 = propagates_(hb, ONT + nm)
+                    if c2:
+                        c1, ok1 = propagates_(bd, hid)
+                        calls, ok = c1, (ok1 and ok2)
+                        break
             if not ok and not calls:
                 # the defaults may be computed by the private code the two setters share and stored directly (`ont.classification = defaults_for(&ont)?`)
                 acc_ = prog.body(ONT + nm.replace("set_default_", ""))
